@@ -57,7 +57,7 @@ def make_scenarios(ctx, count):
                 s.meta["clock_gaps"] = s.meta.get("clock_gaps", 0) + 1
             s.frame(ifc, fr)
             ops.append((tag, ifc, fr))
-        gen = rng.choice([1, 7, 0x1234])
+        gen = rng.choice([1, 7, 0x1234, 0, 0])        # generation 0: a mapper that has not numbered its run yet
         feed(0, G.f_discover(rng, neta, m=m, tos=0, bridged=bridged or b_is_bridge, gen=gen), "F")
         feed(1, G.f_discover(rng, netb, m=m, tos=0, bridged=bridged and not b_is_bridge, gen=gen), "F")
         seq = rng.randint(1, 50000)
@@ -130,6 +130,13 @@ def make_scenarios(ctx, count):
             s.add("DELIVER 0 1")
             ops.append(("DELIVER", descs))
             bystander_traffic(rng.choice([0, 1, 3, 8]) if bystanders else 0)     # between B recording the frames and the mapper asking for them
+            if rng.random() < 0.25:
+                # an enumerator's quick discovery passes by (and ends) while B holds the observations: none of B's business
+                qsrc = rng.choice([m, (m + 1) % len(netb.mappers)])
+                if rng.random() < 0.5:
+                    feed(1, G.f_discover(rng, netb, m=qsrc, tos=1), "F")
+                feed(1, G.f_reset(rng, netb, m=qsrc, tos=1), "F")
+                s.meta["quick_reset_while_holding"] = s.meta.get("quick_reset_while_holding", 0) + 1
             for _ in range(rng.randint(0, 2)):
                 # the mapper repeats its Discover before querying, sometimes already under a new generation number
                 feed(1, G.f_discover(rng, netb, m=m, tos=0, bridged=bridged and not b_is_bridge,
@@ -241,6 +248,7 @@ def monitor(scn, sobj, rep, sf, ck):
         rep.count("frames_delivered_to_the_mappers_bridge", delivered_total)
     rep.count("rounds", rounds)
     rep.count("sibling_descriptors", sobj.meta.get("sibling_descriptors", 0))
+    rep.count("quick_discovery_ended_while_observations_were_held", sobj.meta.get("quick_reset_while_holding", 0))
     if sobj.meta.get("bystanders") and delivered_total:
         rep.count("rounds_beside_other_busy_interfaces", rounds)
     if delivered_total and len(rep.samples) < 2:
@@ -266,6 +274,7 @@ def run(ctx):
     run_monitored(ctx, uchar, scns[2 * third:], monitor, tag="peer-uchar")
     rep.need("frames_delivered", rep.counters.get("frames_delivered", 0), 1000)
     rep.need("rounds_beside_other_busy_interfaces", rep.counters.get("rounds_beside_other_busy_interfaces", 0), 100)
+    rep.need("quick_discovery_ended_while_observations_were_held", rep.counters.get("quick_discovery_ended_while_observations_were_held", 0), 100)
     rep.need("sibling_descriptors", rep.counters.get("sibling_descriptors", 0), 200)
     rep.need("frames_emitted_again_after_a_truncated_response", rep.counters.get("frames_emitted_again_after_a_truncated_response", 0), 20)
     rep.need("emitter_address_changed_mid_session", rep.counters.get("emitter_address_changed_mid_session", 0), 30)
